@@ -201,6 +201,17 @@ pub fn store_literal_with(ab: &mut Abs, metas: &[BackupMetadata], members: &dyn 
     format!("[{}]", v.join("; "))
 }
 
+/// metadata only (archives are irrelevant to create_incremental)
+pub fn meta_store_literal(metas: &[BackupMetadata]) -> String {
+    let v: Vec<String> = metas.iter().map(|m| {
+        format!("mkBackup {} {} {} {} [] true {} {} 0", store_index(metas, m.id),
+            match m.parent_id { Some(p) => format!("(Some {})", store_index(metas, p)), None => "None".into() },
+            if m.backup_type == BackupType::Full { "Full" } else { "Incremental" }, m.timestamp,
+            opt_n(m.max_wal_file_id), opt_n(m.snapshot_file.as_deref().and_then(snap_id)))
+    }).collect();
+    format!("[{}]", v.join("; "))
+}
+
 pub fn store_literal(ab: &mut Abs, bk: &Path, metas: &[BackupMetadata], bad: &BTreeSet<Uuid>) -> String {
     store_literal_with(ab, metas, &|id| read_members(bk, id), bad)
 }
